@@ -827,6 +827,16 @@ class Canon:
                 kk = _ci(e.args[1]) if len(e.args) > 1 else (int(e.name) if (e.name or '').lstrip('-').isdigit() else None)
                 if kk is not None and 0 <= kk < bt[2]:
                     return self.c(be_byte(base.args[0], bt[1], kk))      # x.to_be_bytes()[k] == (x >> 8(n-1-k)) as u8
+            if base.k == 'call' and last(base.name or '') in ('index', 'index_mut') and len(base.args) == 2 and len(e.args) > 1:
+                # element i of the sub-slice x[a..] / x[a..b] is x[a + i]
+                r_ = strip(base.args[1])
+                if r_.k == 'aggr' and r_.name in ('RangeFrom::RangeFrom', 'Range::Range') and r_.args:
+                    a_s = self.bound(r_.args[0])
+                    i_s = self.c(e.args[1])
+                    idx_ = i_s if a_s == '0' else (str(int(a_s) + int(i_s)) if a_s.isdigit() and i_s.isdigit() else 'AddWithOverflow(%s, %s).0' % (a_s, i_s))
+                    return '%s[%s]' % (self.c(base.args[0]), idx_)
+                if r_.k == 'aggr' and r_.name == 'RangeTo::RangeTo':
+                    return '%s[%s]' % (self.c(base.args[0]), self.c(e.args[1]))
             return '%s[%s]' % (self.c(e.args[0]), self.c(e.args[1]) if len(e.args) > 1 else e.name)
         if k == 'phi':
             return 'phi(%s)' % ' | '.join(sorted(self.c(a) for a in e.args))
